@@ -410,6 +410,19 @@ def _c15_chunk(chunk):
                                              force_mode=fm, place="ctor", async_callbacks=acb)
             acb = entry.startswith("Async") and idx % 2 == 0
             tl = level == "retry" and idx % 2 == 1
+            if level == "retry" and idx % 4 == 0:
+                # a metric hook that is not callable with the documented arguments at all: the log hook
+                # sees every event, and the run is the one without any metric hook
+                fm0 = "call" if entry in retryenv.CALL_ONLY else None
+                base = retryenv.run_scenario(cfg, events, entry=entry, force_mode=fm0, place="ctor",
+                                             async_callbacks=acb, sinks="log")
+                broken = retryenv.run_scenario(cfg, events, entry=entry, force_mode=fm0, place="ctor",
+                                               async_callbacks=acb, sinks="log", broken_metric=True)
+                res["runs"] += 2
+                if broken != base and len(res["viol"]) < 40:
+                    res["viol"].append({"entry": entry, "hook": "metric", "at": "uncallable", "exc": "TypeError",
+                                        "cfg": cfg, "script": events, "silent": base, "faulty": broken,
+                                        "level": level})
             silent = run(None, tl, acb)
             res["runs"] += 1
             if level == "retry" and not tl and entry in ("Retry", "AsyncRetry") and silent != events:
